@@ -24,8 +24,11 @@ ASSUMPTIONS = ["the first solve must succeed and lie outside the solver's record
 TRUSTED_EXTRA = []
 
 
+_ALGO = ["sha256"]      # digest algorithm of the index's link fragments in the current case (PEP 503 allows any hashlib name)
+
+
 def _hash(name, ver):
-    return "sha256:" + hashlib.sha256(("%s-%s" % (GL.norm(name), ver)).encode()).hexdigest()
+    return _ALGO[0] + ":" + hashlib.new(_ALGO[0], ("%s-%s" % (GL.norm(name), ver)).encode()).hexdigest()
 
 
 def _fname(name, ver):
@@ -195,10 +198,18 @@ class Reproduce(Stream):
             case["prerelease_pin"] = leaf
         case["release_typed"] = "".join((rng.choice("-_.") if ch in "-_." else (ch.swapcase() if rng.random() < 0.3 else ch)) for ch in case["release"])
         case["second_solution"] = rng.choice([None, "first", "second"])
+        case["link_algo"] = rng.choice(["sha256", "sha256", "md5", "sha512"])
         return case
 
     # ------------------------------------------------------------------------------------------
     def impl(self, case):
+        _ALGO[0] = case.get("link_algo", "sha256")
+        try:
+            return self._impl(case)
+        finally:
+            _ALGO[0] = "sha256"
+
+    def _impl(self, case):
         from rv.core import digest
         from req_compile.repos.solution import SolutionRepository
         from req_compile.repos.multi import MultiRepository
